@@ -32,7 +32,7 @@ TECHNIQUE = ("runtime monitoring: real TorControlProtocol against an HMAC-comput
              "and single-fault enumeration over every authentication/bootstrap step; write-time wire monitor, "
              "password-provider call counter, post_bootstrap call counter, reference decision table and reference HMACs")
 LEVEL_TEXT = ("Held on the executions observed: the complete product of all 64 orderings of non-empty subsets of "
-              "{NULL,HASHEDPASSWORD,COOKIE,SAFECOOKIE} x 8 cookie-file conditions x 15 password-provider shapes (protocol built directly, via TorProtocolFactory, or without any provider in the three possible ways) "
+              "{NULL,HASHEDPASSWORD,COOKIE,SAFECOOKIE} x 10 cookie-file conditions (11 when not root) x 15 password-provider shapes (protocol built directly, via TorProtocolFactory, or without any provider in the three possible ways) "
               "against a correct server (thorough; quick: a seed-dependent stratified subset, >= 3 cases of every "
               "stratum), plus one injected fault "
               "(wrong/unverifiable SERVERHASH in 12 shapes, 10 malformed AUTHCHALLENGE replies, 5xx with and "
@@ -51,6 +51,11 @@ ASSUMPTIONS = [
     "a configured provider returns no password / fails) the client may either fail or fall back to a lower-preference "
     "advertised method; never accepted: using a lower-preference method while a higher-preference one is usable, "
     "or a method that is not advertised",
+    "observation only, NOT judged: each run with a directory / a path through a regular file / a symlink loop / a "
+    "mode-000 file (non-root only) in place of the cookie is paired with the same run with the file missing and it is "
+    "recorded whether the client decides the same way (the statement leaves 'fail or fall back' open for an unusable "
+    "cookie, so a client that falls back on ENOENT but fails on EACCES still satisfies it; seeded change C04-v is "
+    "therefore deliberately not reported)",
     "a protocol built WITHOUT a password provider (TorControlProtocol(), TorControlProtocol(None), "
     "TorProtocolFactory(password_function=None)) has no password method at all: an advertised HASHEDPASSWORD is then "
     "skipped, it is not an 'unusable method' that excuses failing - the next advertised usable method (NULL) must be "
@@ -102,6 +107,7 @@ FLOORS = {'quick': {'evaluations': 550,
            'ready_successes_checked': 75,
            'escaped_paths_read': 160,
            'no_provider_skips_password_checks': 4,
+           'unreadable_policy_pairs_compared': 90,
            'reach:txtorcon.torcontrolprotocol:TorControlProtocol._do_authenticate': 520,
            'reach:txtorcon.torcontrolprotocol:TorControlProtocol._safecookie_authchallenge': 150,
            'reach:txtorcon.torcontrolprotocol:TorControlProtocol._auth_failed': 480,
@@ -122,6 +128,7 @@ FLOORS = {'quick': {'evaluations': 550,
               'ready_successes_checked': 360,
               'escaped_paths_read': 1400,
               'no_provider_skips_password_checks': 13,
+              'unreadable_policy_pairs_compared': 280,
               'reach:txtorcon.torcontrolprotocol:TorControlProtocol._do_authenticate': 3500,
               'reach:txtorcon.torcontrolprotocol:TorControlProtocol._safecookie_authchallenge': 1250,
               'reach:txtorcon.torcontrolprotocol:TorControlProtocol._auth_failed': 3500,
@@ -134,7 +141,13 @@ FLOORS = {'quick': {'evaluations': 550,
 # the input space
 
 PREF = ["SAFECOOKIE", "COOKIE", "HASHEDPASSWORD", "NULL"]          # highest preference first
-COOKIES = ["absent", "missing", "dir", "len0", "len31", "len33", "len64", "valid"]
+# "notdir": the path runs through a regular file (ENOTDIR); "loop": a symlink to itself (ELOOP);
+# "perm": a mode-000 file (EACCES) - generated only when the harness is not root, root can read it
+COOKIES = ["absent", "missing", "dir", "notdir", "loop", "len0", "len31", "len33", "len64", "valid"]
+if os.geteuid() != 0:
+    COOKIES.insert(5, "perm")
+# the COOKIEFILE is advertised but its content cannot be obtained: one cookie-file condition ("unreadable")
+UNREADABLE = ("missing", "dir", "notdir", "loop", "perm")
 COOKIE_LEN = {"len0": 0, "len31": 31, "len33": 33, "len64": 64, "valid": 32}
 PROVIDERS = ["none", "str", "bytes", "empty", "returns-none", "deferred", "deferred-late", "deferred-fail",
              "deferred-late-fail", "coroutine", "coroutine-late", "coroutine-raising", "raising", "wrong", "factory-default"]
@@ -348,6 +361,16 @@ class Scratch(object):
             pass
         elif cookie_kind == "dir":
             os.mkdir(path)
+        elif cookie_kind == "notdir":
+            with open(path, "wb") as f:            # a regular file where a directory is needed
+                f.write(content)
+            path = os.path.join(path, "cookie")
+        elif cookie_kind == "loop":
+            os.symlink(path, path)
+        elif cookie_kind == "perm":
+            with open(path, "wb") as f:
+                f.write(content)
+            os.chmod(path, 0)
         else:
             with open(path, "wb") as f:
                 f.write(content)
@@ -729,9 +752,32 @@ def flavour_class(case):
     return case.get("path", "plain") if case["cookie"] not in ("absent",) else "-"
 
 
+def policy_of(case, obs):
+    """what the client did about its credentials: the method of its first attempt, or 'failed'"""
+    tor = obs["tor"]
+    for (l, _) in tor.rx_lines:
+        w = l.decode("latin1").split(" ", 1)[0].upper()
+        if w == "AUTHCHALLENGE":
+            return "SAFECOOKIE"
+        if w == "AUTHENTICATE":
+            return classify_token(tor.auth_tokens[0][1] if tor.auth_tokens else None, case, obs)
+    return "failed"
+
+
 def run_case(case, rec, ctx):
     obs = execute(case, ctx)
     bad, nontrivial = judge(case, obs, rec, ctx)
+    if case["cookie"] in UNREADABLE and case["cookie"] != "missing" and not case.get("fault") and not bad:
+        # observation (not judged): same advertisement, same provider, only the reason why the file cannot
+        # be opened differs -- does the client decide the same way?
+        twin = dict(case)
+        twin["cookie"] = "missing"
+        obs2 = execute(twin, ctx)
+        rec.count("unreadable_policy_pairs_compared")
+        a, b = policy_of(case, obs), policy_of(twin, obs2)
+        rec.seen("unreadable_policies", "%s:%s missing:%s" % (case["cookie"], a, b))
+        if a != b:
+            rec.count("unreadable_policy_pairs_that_differ_not_judged")
     rec.case(case, nontrivial=nontrivial)
     return bad
 
